@@ -238,7 +238,8 @@ def path(eng, acc, task):
             raise runner.HarnessError(f'unknown op {op}')
     except DeadPath:
         raise
-    except (AssertionError, ValueError, IndexError, KeyError, TypeError, ZeroDivisionError) as e:
+    except Exception as e:
+        reraise_internal(e)
         import traceback
         tb = traceback.extract_tb(e.__traceback__)[-1]
         candidate(eng, acc, task, 'arith', f'arith:{op}:raises:{type(e).__name__}@{tb.name}', repr(e), inputs)
